@@ -81,6 +81,8 @@ TResult ==
                                      /\ Cur.hend = "error"
        \* C13: Receive delivers while a Send on the same stream is blocked; the Send completes once the handler reads
        [] sc.op = "recv_while_send" -> Cur.recv_ok /\ ~Cur.recv_late /\ Cur.send_ok /\ ~Cur.gave_up
+       \* C01: nested messages arrive with the same content, both directions, every kind
+       [] sc.op = "nested_e2e" -> Cur.same
        [] sc.op = "client_init_fail" ->
             /\ Cur.reached = 0 /\ Len(Cur.codes) >= 8
             /\ IF sc.used = "badurl"
